@@ -131,6 +131,19 @@ func c16(r *Report) propMeta {
 	r.Rule("C16.R11", "E19 constructors of x/restake/types store their inputs unchanged")
 	r.CtorFaithful("ctor", faithfulCtors["restake"]...)
 
+	r.Rule("C16.lint", "E8 module lint: no nondeterminism / process-local state in x/restake")
+	r.ModuleLint("module-lint", "restake", 20)
+
+	r.Rule("C16.R12", "genesis export is complete")
+	r.ArgHas("export-all-vaults", rK+"ExportGenesis", "types.NewGenesisState", 1, 1, "^call:Keeper.GetVaults")
+	r.ArgHas("export-all-locks", rK+"ExportGenesis", "types.NewGenesisState", 2, 1, "^call:Keeper.GetLocks")
+	r.ArgHas("export-all-stakes", rK+"ExportGenesis", "types.NewGenesisState", 3, 1, "^call:Keeper.GetStakes")
+	r.LoopVisitsAll("all-vaults-listed", rK+"GetVaults", "builtin.append", LoopOpts{})
+	r.LoopVisitsAll("all-locks-listed", rK+"GetLocks", "builtin.append", LoopOpts{})
+
+	r.Rule("C16.iter", "E14 store-iterator loops run to exhaustion")
+	r.IteratorLoopCensus("iter", []string{"x/restake/"}, map[string]string{"x/restake/keeper.Keeper.isValidPower": "stops at the first lock of an ACTIVE vault in the descending by-power index: the largest binding lock"}, 4)
+
 	return propMeta{
 		Decided: []string{
 			"R1 Unstake pays out only past !isNeg(SafeSub) and isValidPower(total power read AFTER the stake record was rewritten); failing edges return errors",
@@ -144,6 +157,9 @@ func c16(r *Report) propMeta {
 			"R9 index key writer and reader agree on the 8-byte big-endian power field at the same offset",
 			"R10 every KV-store Get/Has/Delete of x/restake uses a key builder of x/restake/types that some Set of the module also uses (a probe of an iteration prefix or of a sibling family is always-empty state)",
 			"R11 the literal constructors of x/restake/types (frozen list) store each parameter or a constant unchanged in the record they build: what a handler validated is what is stored",
+			"lint: the determinism lint (incl. writes to memory held by long-lived objects) over everything reachable from the handlers and blockers of x/restake",
+			"R12 ExportGenesis exports every vault (also deactivated ones: a vault missing after import would be re-created ACTIVE by GetOrCreateVault), every lock and every stake, each list built by a loop without early way out (seed C16-8)",
+			"iter: every KV-store iterator loop of the module's keeper runs until the iterator is exhausted (header is the bare Valid() test, no other way out but panic / error return), except reviewed early stops",
 		},
 		Undecided: []string{"module balance == sum of stakes over histories", "rounding in TokensFromSharesTruncated", "slashing"},
 		Assume:    []string{"staking module invokes the registered hooks and aborts on their error", "msg handlers atomic"},
